@@ -40,8 +40,8 @@ CONSTANTS Lens,       \* trace lengths (powers of two >= 8)
           PairBases,  \* base degrees used in two-constraint contexts
           Fixed       \* TRUE: column count of the current tree; FALSE: as found
 
-VARIABLE case
-vars == <<case>>
+VARIABLES case, phase
+vars == <<case, phase>>
 
 (***************************************************************************)
 (* Denotation                                                              *)
@@ -119,8 +119,10 @@ CtorCases ==
   {[t |-> "ctor", base |-> b, cycles |-> cs] :
      b \in {0, 1, 3}, cs \in {<<>>, <<2>>, <<0>>, <<1>>, <<3>>, <<6>>, <<4, 8>>, <<4, 1>>, <<12, 4>>, <<64, 64, 64>>}}
 
-Init == case \in Contexts \cup CtorCases
-Next == UNCHANGED case
+Init == phase = 0 /\ case \in Contexts \cup CtorCases
+\* TLC computes initial states in one thread: every case takes one step, and the invariants (and the
+\* scenario emission) are evaluated on the state after it, by the workers
+Next == phase = 0 /\ phase' = 1 /\ UNCHANGED case
 Spec == Init /\ [][Next]_vars
 
 (***************************************************************************)
@@ -129,18 +131,16 @@ Spec == Init /\ [][Next]_vars
 IsCtx == case.t = "ctx"
 Es(c) == 0..(c.L \div 2 + 2)
 
-DocDegree ==
-  IsCtx => \A i \in 1..Len(All(case)) : EvalDegree(All(case)[i], case.L) = ProductDegree(Factors(All(case)[i], case.L))
-BlowupPow2 ==
-  IsCtx => \A i \in 1..Len(All(case)) : IsPow2(MinBlowup(All(case)[i])) /\ MinBlowup(All(case)[i]) >= 2
+DocDegree == phase = 1 /\ IsCtx => \A i \in 1..Len(All(case)) : EvalDegree(All(case)[i], case.L) = ProductDegree(Factors(All(case)[i], case.L))
+BlowupPow2 == phase = 1 /\ IsCtx => \A i \in 1..Len(All(case)) : IsPow2(MinBlowup(All(case)[i])) /\ MinBlowup(All(case)[i]) >= 2
 \* the default number of exemptions (1) is always acceptable
-DefaultAccepted == IsCtx => Accepts(case, 1)
-BlowupSuffices == IsCtx => \A e \in Es(case) : Accepts(case, e) => CeDomain(case) > CompDegree(case, e)
-ColsHold       == IsCtx => \A e \in Es(case) : Accepts(case, e) => CodeCols(case, e) * case.L >= CompDegree(case, e) + 1
-ColsMinimal    == IsCtx => \A e \in Es(case) : Accepts(case, e) =>
+DefaultAccepted == phase = 1 /\ IsCtx => Accepts(case, 1)
+BlowupSuffices == phase = 1 /\ IsCtx => \A e \in Es(case) : Accepts(case, e) => CeDomain(case) > CompDegree(case, e)
+ColsHold == phase = 1 /\ IsCtx => \A e \in Es(case) : Accepts(case, e) => CodeCols(case, e) * case.L >= CompDegree(case, e) + 1
+ColsMinimal == phase = 1 /\ IsCtx => \A e \in Es(case) : Accepts(case, e) =>
                     (CodeCols(case, e) = 1 \/ (CodeCols(case, e) - 1) * case.L < CompDegree(case, e) + 1)
-ColsFitDomain  == IsCtx => \A e \in Es(case) : Accepts(case, e) => CodeCols(case, e) <= CeBlowup(case)
-ColsAsRequired == IsCtx => \A e \in Es(case) : Accepts(case, e) => CodeCols(case, e) = RequiredCols(case, e)
+ColsFitDomain == phase = 1 /\ IsCtx => \A e \in Es(case) : Accepts(case, e) => CodeCols(case, e) <= CeBlowup(case)
+ColsAsRequired == phase = 1 /\ IsCtx => \A e \in Es(case) : Accepts(case, e) => CodeCols(case, e) = RequiredCols(case, e)
 
 (***************************************************************************)
 (* Scenario emission                                                       *)
@@ -160,5 +160,5 @@ Scenario(c) ==
         aux |-> [i \in 1..Len(c.aux) |-> DescJson(c.aux[i], c.L)],
         ceb |-> CeBlowup(c), ce |-> CeDomain(c), opts |-> OptBlowups(c),
         ex |-> [k \in 1..(c.L \div 2 + 3) |-> ExRow(c, k - 1)]]
-Emit == PrintT(<<"REPLAY", ToJson(Scenario(case))>>)
+Emit == phase = 1 => PrintT(<<"REPLAY", ToJson(Scenario(case))>>)
 =============================================================================
